@@ -123,6 +123,8 @@ def leaf_value(p):
         "bytes": mbytes(), "bool": st.booleans(), "unit": st.just(()), "key_hash": key_hashes(),
         "address": addresses(), "tx_rollup_l2_address": addresses(kinds=(2,)), "key": keys(), "signature": signatures(), "chain_id": chain_ids(),
         "bls12_381_fr": st.one_of(st.sampled_from([0, 1, rv.BLS_R - 1]), st.integers(0, rv.BLS_R - 1)),
+        "bls12_381_g1": st.one_of(st.binary(min_size=96, max_size=96), st.just(b"\x40" + b"\x00" * 95)),
+        "bls12_381_g2": st.one_of(st.binary(min_size=192, max_size=192), st.just(b"\x40" + b"\x00" * 191)),
     }[p]
 
 
